@@ -42,6 +42,7 @@ import Proofs.FitNoRaise
 import Proofs.FitNorm
 import Proofs.JoinSuccess
 import Proofs.Placement
+import Proofs.DelAround
 import Props.C01
 namespace PM.C11
 open PM
@@ -2483,11 +2484,11 @@ building a Fitter (`fits_trivially`).  Either end may lie strictly inside a text
 * `fnorm doc.kids` (no empty text nodes, no adjacent text nodes with equal marks: what `Fragment.from_array` /
   `Node.from_json` build) and `pairAligned` for both ends (Python cannot cut a `str` inside a surrogate pair).
 
-WHAT IS MISSING for the general `delete_applies` (the Fitter's answer `ReplaceStep(f, t', ⟨placed, depth(from), d⟩)` or the
+WHAT THE GENERAL `delete_applies` NEEDED — proved in the last section of this file, `delete_applies` — (the Fitter's answer `ReplaceStep(f, t', ⟨placed, depth(from), d⟩)` or the
 replace-around "move" form): the success of `replace_outer` at the joined levels.  At each joined depth `i` the replace
 calls `close(node_i, left_i ++ inner_i ++ right_i)` with `left_i` the children of the document's ancestor of `from`
 before the path, `inner_i` the closed deeper level plus the fillers `close_frontier_node` added, `right_i` the children
-of the ancestor of `t'` behind the path.  Needed and not yet proved: (1) a description of `placed` as this chain
+of the ancestor of `t'` behind the path.  Needed (and since proved): (1) a description of `placed` as this chain
 (`PureV`, Proofs/FitValid.lean, gives validity of each level but not *which* children it has); (2) from `Coh`
 (Proofs/FitCoherent.lean) at the end of `close`: `frontier[i].match` is the state after `left_i ++ inner_i`, and
 `findCloseLevel` / `closeFit_valid` give that `right_i` is accepted from it — i.e. `checkContent` of the joined node;
@@ -2609,5 +2610,245 @@ theorem emitted_applies_of_result (S : Schema) (ty0 : TypeId) (a0 : Attrs) (m0 :
     (hs : sliceKids K F T₀ = .ok sl) (hL : LeftRel K' K F) (hR : RightRel S K' T K T₀) :
     ∃ doc', S.apply (.replace F T sl false) (.elem ty0 a0 m0 K') = .ok doc' :=
   replace_applies_of_result S ty0 a0 m0 K K' F T₀ T sl hvc hv hn hn' hft ht hft' hs hL hR
+
+/-! ## The emitted step applies (first sentence of C11): every deletion
+
+The three facts the section above lists as missing are proved (Proofs/DelSpine.lean … Proofs/DelAround.lean): the
+document the operation returns is *built* from the frames of `from` and of the position the step ends at
+(`leftK` / `rightK` / `joinK`), shown valid level by level from the frontier's matches, the fillers and the checks of
+`find_close_level`, and `replaceKids_merged` (Proofs/MergeOpen.lean) turns it into success of the replace.  What the
+run of the Fitter does *not* establish is asked of the schema, as decidable guards (PM/DeleteGuards.lean; kernel-checked
+for the bundled family, lean/Gen/Guards):
+
+* `joinCompatB` — two node types whose content automata share an edge label are `compatible_content` (fact (3): the
+  `check_join` of the document ancestors at the joined depths).  Needed: `joinCompat_needed` below (the schema
+  `doc "(x | y)+"`, `x "a b*"`, `y "b+"`).
+* `reopenOKB` — every state of every automaton is covered by a state reachable from the start over generatable types:
+  `close` re-opens the ancestors of `to` with `fill_before(node.content, True, index)` from the start state and stores the
+  node whatever the answer.
+* `S.closableB` — `fill_before(Fragment.empty, True)` answers at every state (`close_frontier_node` skips a `None`).
+* `textAbsorbB` (weaker than `FromDom.textStableB`, which `delete_applies_flat` asks) — for the trivial fit, where
+  `can_replace` looks at whole children and the replace keeps half a text child; `textStableC` (merging two text halves).
+* `inlineUniformB` — for the replace-around answer ("move the inline content behind `to` into the textblock of `from`"):
+  the fillers `close_frontier_node` computed without the moved content come behind it.
+
+Hypotheses about the document: valid (`Node.check`), in normal form, element attributes creatable, both ends
+pair-aligned, and `highClosedKids` — no text node holds a high surrogate without its low surrogate (a Python `str`
+without lone surrogates; `TextNode` refuses others): joining `"…\ud83d"` with `"\ude00…"` would put a position of
+the result inside a surrogate pair. -/
+
+abbrev joinCompatB := PM.joinCompatB
+abbrev reopenOKB := PM.reopenOKB
+abbrev textAbsorbB := PM.textAbsorbB
+abbrev inlineUniformB := PM.inlineUniformB
+abbrev highClosedKids := PM.highClosedKids
+
+/-- **`delete_applies`** — on a valid document in normal form, for `f ≤ t` both pair-aligned, every step
+    `replace_step(doc, f, t, Slice.empty)` emits — `ReplaceStep` from the trivial fit, `ReplaceStep` from the Fitter,
+    `ReplaceAroundStep` from the Fitter — **applies**: `Step.apply(doc)` returns a document -/
+theorem delete_applies (S : Schema) (hdet : detB S = true) (hfill : S.fillersOKB = true)
+    (hleaf : PM.FromDom.leafOkB S = true) (hcl : S.closableB = true) (hts : textStableC S = true)
+    (hta : textAbsorbB S = true) (hjc : joinCompatB S = true) (hro : reopenOKB S = true)
+    (hiu : inlineUniformB S = true) (doc : Node) (f t : Nat)
+    (hv : C01.Valid S doc) (hdoc : C01.IsElem doc) (hn : fnorm doc.kids = true) (hattrs : S.nodeAttrsOK doc = true)
+    (hhc : highClosedKids doc.kids = true) (hft : f ≤ t)
+    (hpf : pairAligned doc f = true) (hpt : pairAligned doc t = true) (st : Step)
+    (h : replaceStep S doc f t Slice.empty = .ok (some st)) : ∃ doc', S.apply st doc = .ok doc' := by
+  cases doc with
+  | text s m => simp [C01.IsElem, Node.isLeaf] at hdoc
+  | leaf ty a m => simp [C01.IsElem, Node.isLeaf] at hdoc
+  | elem ty0 a0 m0 K =>
+    cases hrf : (Node.elem ty0 a0 m0 K).resolve f with
+    | none =>
+      unfold replaceStep at h
+      split at h
+      · simp [pure, Except.pure] at h
+      · simp [hrf, throw, throwThe, MonadExceptOf.throw] at h
+    | some rf =>
+      cases hrt : (Node.elem ty0 a0 m0 K).resolve t with
+      | none =>
+        unfold replaceStep at h
+        split at h
+        · simp [pure, Except.pure] at h
+        · simp [hrf, hrt, throw, throwThe, MonadExceptOf.throw] at h
+      | some rt =>
+        have hpf' : rf.pairOk = true := by simpa [pairAligned, hrf] using hpf
+        have hpt' : rt.pairOk = true := by simpa [pairAligned, hrt] using hpt
+        exact replaceStep_delete_applies S (detS_of_detB S hdet) (PM.FromDom.leafOk_of_B S hleaf)
+          (fillersOK_of_B S hfill) (closable_of_B S hcl) (textStableP_of_C S hts) (textAbsorb_of_B S hta) hjc hro hiu
+          ty0 a0 m0 K f t hv hn hattrs hhc hft rf rt hrf hrt hpf' hpt' st h
+
+/-- **`delete_never_raises`** — `Transform.delete(f, t)` as a whole: `replace_step` returns `None` (nothing to do) or a
+    step, and that step applies: the operation returns a valid document with exactly the text inside `[f, t)` removed
+    and everything else kept.  No refusal branch, no hypothesis about the step. -/
+theorem delete_never_raises (S : Schema) (hdet : detB S = true) (hfill : S.fillersOKB = true)
+    (hleaf : PM.FromDom.leafOkB S = true) (hcl : S.closableB = true) (hts : textStableC S = true)
+    (hta : textAbsorbB S = true) (hjc : joinCompatB S = true) (hro : reopenOKB S = true)
+    (hiu : inlineUniformB S = true) (doc : Node) (f t : Nat)
+    (hv : C01.Valid S doc) (hdoc : C01.IsElem doc) (hn : fnorm doc.kids = true) (hattrs : S.nodeAttrsOK doc = true)
+    (hhc : highClosedKids doc.kids = true) (htop : S.isTextblockO (S.tyOf doc) = false)
+    (hft : f ≤ t) (ht : t ≤ fsize doc.kids)
+    (hpf : pairAligned doc f = true) (hpt : pairAligned doc t = true) :
+    replaceStep S doc f t Slice.empty = .ok none ∨
+    ∃ st doc', replaceStep S doc f t Slice.empty = .ok (some st) ∧ S.apply st doc = .ok doc' ∧ C01.Valid S doc' ∧
+      Kept (ftoks doc.kids) (ftoks doc'.kids) f t [] ∧
+      textUnits (ftoks doc'.kids) = textUnits ((ftoks doc.kids).take f) ++ textUnits ((ftoks doc.kids).drop t) := by
+  obtain ⟨r, hr⟩ := delete_total S hdet hfill doc f t hv hattrs htop hft ht
+  cases r with
+  | none => exact .inl hr
+  | some st =>
+    obtain ⟨doc', ha⟩ := delete_applies S hdet hfill hleaf hcl hts hta hjc hro hiu doc f t hv hdoc hn hattrs hhc hft
+      hpf hpt st hr
+    exact .inr ⟨st, doc', hr, ha, delete_valid S hdet hfill hleaf doc doc' f t hv hattrs hft st hr ha⟩
+
+/-- the positions `delete_range` hands to `delete` are pair-aligned when the requested ones are: it widens the range
+    over open and close tokens only -/
+theorem deleteRange_target_aligned (S : Schema) (doc : Node) (f t f' t' : Nat) (hdoc : C01.IsElem doc)
+    (hn : fnorm doc.kids = true) (ht : t ≤ fsize doc.kids) (hft : f ≤ t)
+    (hpf : pairAligned doc f = true) (hpt : pairAligned doc t = true)
+    (h : deleteRangeTarget S doc f t = some (f', t')) :
+    pairAligned doc f' = true ∧ pairAligned doc t' = true := by
+  obtain ⟨h1, h2, h3, ho, hc⟩ := deleteRange_extends_structurally S doc f t f' t' h
+  cases doc with
+  | text s m => simp [C01.IsElem, Node.isLeaf] at hdoc
+  | leaf ty a m => simp [C01.IsElem, Node.isLeaf] at hdoc
+  | elem ty0 a0 m0 K =>
+    have key : ∀ pos, pos ≤ fsize K → alignedAt K pos = true → pairAligned (Node.elem ty0 a0 m0 K) pos = true := by
+      intro pos hp ha
+      obtain ⟨r, hr⟩ := resolve_isSome (Node.elem ty0 a0 m0 K) pos hp
+      simp only [pairAligned, hr]
+      exact pairOk_of_aligned hr hn ha
+    have back : ∀ pos, pos ≤ fsize K → pairAligned (Node.elem ty0 a0 m0 K) pos = true → alignedAt K pos = true := by
+      intro pos hp ha
+      obtain ⟨r, hr⟩ := resolve_isSome (Node.elem ty0 a0 m0 K) pos hp
+      simp only [pairAligned, hr] at ha
+      exact aligned_of_pairOk hr hn ha
+    have ht' : t ≤ fsize K := ht
+    have h3' : t' ≤ fsize K := h3
+    constructor
+    · refine key f' (by omega) ?_
+      rcases Nat.eq_or_lt_of_le h1 with e | hlt
+      · rw [e]; exact back f (by omega) hpf
+      · rw [alignedAt_toks K _ hn]
+        apply tokAligned_nonunit_right
+        intro tk htk
+        obtain ⟨ty, a, m, e⟩ := ho f' (Nat.le_refl _) hlt
+        have e' : (ftoks K)[f']? = some (Tok.op ty a m) := e
+        rw [e'] at htk; cases htk; rfl
+    · refine key t' h3' ?_
+      rcases Nat.eq_or_lt_of_le h2 with e | hlt
+      · rw [← e]; exact back t ht' hpt
+      · rw [alignedAt_toks K _ hn]
+        obtain ⟨j, rfl⟩ : ∃ j, t' = j + 1 := ⟨t' - 1, by omega⟩
+        apply tokAligned_nonunit_left
+        intro tk htk
+        have e' : (ftoks K)[j]? = some Tok.cl := hc j (by omega) (by omega)
+        rw [e'] at htk; cases htk; rfl
+
+/-- **`deleteRange_applies`** — the step `Transform.delete_range(f, t)` records applies -/
+theorem deleteRange_applies (S : Schema) (hdet : detB S = true) (hfill : S.fillersOKB = true)
+    (hleaf : PM.FromDom.leafOkB S = true) (hcl : S.closableB = true) (hts : textStableC S = true)
+    (hta : textAbsorbB S = true) (hjc : joinCompatB S = true) (hro : reopenOKB S = true)
+    (hiu : inlineUniformB S = true) (doc : Node) (f t : Nat)
+    (hv : C01.Valid S doc) (hdoc : C01.IsElem doc) (hn : fnorm doc.kids = true) (hattrs : S.nodeAttrsOK doc = true)
+    (hhc : highClosedKids doc.kids = true) (hft : f ≤ t) (ht : t ≤ fsize doc.kids)
+    (hpf : pairAligned doc f = true) (hpt : pairAligned doc t = true) (st : Step)
+    (h : deleteRangeStep S doc f t = .ok (some st)) : ∃ doc', S.apply st doc = .ok doc' := by
+  unfold deleteRangeStep at h
+  split at h
+  · simp [throw, throwThe, MonadExceptOf.throw] at h
+  · rename_i a b htg
+    obtain ⟨h1, h2, _⟩ := deleteRange_extends_structurally S doc f t a b htg
+    obtain ⟨ha, hb⟩ := deleteRange_target_aligned S doc f t a b hdoc hn ht hft hpf hpt htg
+    exact delete_applies S hdet hfill hleaf hcl hts hta hjc hro hiu doc a b hv hdoc hn hattrs hhc (by omega) ha hb st h
+
+/-- **`deleteRange_never_raises`** — `Transform.delete_range(f, t)` as a whole -/
+theorem deleteRange_never_raises (S : Schema) (hdet : detB S = true) (hfill : S.fillersOKB = true)
+    (hleaf : PM.FromDom.leafOkB S = true) (hcl : S.closableB = true) (hts : textStableC S = true)
+    (hta : textAbsorbB S = true) (hjc : joinCompatB S = true) (hro : reopenOKB S = true)
+    (hiu : inlineUniformB S = true) (doc : Node) (f t : Nat)
+    (hv : C01.Valid S doc) (hdoc : C01.IsElem doc) (hn : fnorm doc.kids = true) (hattrs : S.nodeAttrsOK doc = true)
+    (hhc : highClosedKids doc.kids = true) (htop : S.isTextblockO (S.tyOf doc) = false)
+    (hft : f ≤ t) (ht : t ≤ fsize doc.kids)
+    (hpf : pairAligned doc f = true) (hpt : pairAligned doc t = true) :
+    deleteRangeStep S doc f t = .ok none ∨
+    ∃ st doc', deleteRangeStep S doc f t = .ok (some st) ∧ S.apply st doc = .ok doc' ∧ C01.Valid S doc' ∧
+      Kept (ftoks doc.kids) (ftoks doc'.kids) f t [] ∧
+      textUnits (ftoks doc'.kids) = textUnits ((ftoks doc.kids).take f) ++ textUnits ((ftoks doc.kids).drop t) := by
+  obtain ⟨r, hr⟩ := deleteRange_total S hdet hfill doc f t hv hattrs htop hft ht
+  cases r with
+  | none => exact .inl hr
+  | some st =>
+    obtain ⟨doc', ha⟩ := deleteRange_applies S hdet hfill hleaf hcl hts hta hjc hro hiu doc f t hv hdoc hn hattrs hhc hft
+      ht hpf hpt st hr
+    exact .inr ⟨st, doc', hr, ha, deleteRange_valid S hdet hfill hleaf doc doc' f t hv hattrs hft st hr ha⟩
+
+/-- the hypotheses of `delete_applies` are satisfiable on runs that reach the Fitter: `doc(p("ab"), p("cd"))` with
+    `doc: "paragraph+"`, `paragraph: "text*"` — deleting `[2, 6)` (from inside the first paragraph to inside the second)
+    is not a trivial fit and ends in the replace step that joins the paragraphs; in `doc(bq(p("ab")), p("cd"))` with
+    `doc: "block+"`, `blockquote: "block+"`, deleting `[3, 8)` ends in the replace-around step that moves `"d"` into
+    the quoted paragraph -/
+example :
+    let nt (name : String) (isText inl : Bool) (dfa : Array DfaState) : NodeType :=
+      { name := name, isText := isText, isInline := isText, isLeaf := isText, isAtom := isText,
+        inlineContent := inl, isolating := false, defining := false, code := false,
+        dfa := dfa, markSet := none, attrs := [] }
+    let S : Schema := { nodes := #[nt "doc" false false #[⟨false, [(1, 1), (2, 1)]⟩, ⟨true, [(1, 1), (2, 1)]⟩],
+                                   nt "paragraph" false true #[⟨true, [(3, 0)]⟩],
+                                   nt "blockquote" false false #[⟨false, [(1, 1), (2, 1)]⟩, ⟨true, [(1, 1), (2, 1)]⟩],
+                                   nt "text" true false #[⟨true, []⟩]],
+                        marks := #[], top := 0, textTy := 3 }
+    let doc1 := Node.elem 0 [] [] [.elem 1 [] [] [.text [97, 98] []], .elem 1 [] [] [.text [99, 100] []]]
+    let doc2 := Node.elem 0 [] [] [.elem 2 [] [] [.elem 1 [] [] [.text [97, 98] []]], .elem 1 [] [] [.text [99, 100] []]]
+    detB S = true ∧ S.fillersOKB = true ∧ PM.FromDom.leafOkB S = true ∧ S.closableB = true ∧ textStableC S = true ∧
+    textAbsorbB S = true ∧ joinCompatB S = true ∧ reopenOKB S = true ∧ inlineUniformB S = true ∧
+    S.checkNode doc1 = true ∧ fnorm doc1.kids = true ∧ S.nodeAttrsOK doc1 = true ∧ highClosedKids doc1.kids = true ∧
+    pairAligned doc1 2 = true ∧ pairAligned doc1 6 = true ∧
+    fitsTriviallyO S doc1 2 6 Slice.empty = some false ∧
+    (match replaceStep S doc1 2 6 Slice.empty with
+     | .ok (some (.replace 2 6 sl _)) => sl == Slice.empty
+     | _ => false) = true ∧
+    S.checkNode doc2 = true ∧ fnorm doc2.kids = true ∧ S.nodeAttrsOK doc2 = true ∧ highClosedKids doc2.kids = true ∧
+    pairAligned doc2 3 = true ∧ pairAligned doc2 8 = true ∧
+    (match replaceStep S doc2 3 8 Slice.empty with
+     | .ok (some (.replaceAround 3 10 8 9 _ 0 _)) => true
+     | _ => false) = true := by
+  decide +kernel
+
+/-- **`joinCompat_needed`** — without `joinCompatB` the statement is false, in the model as in the code: schema
+    `doc: "(x | y)+"`, `x: "a b*"`, `y: "b+"` (leaves `a`, `b`) satisfies every other guard; in `doc(x(a), y(b, b))` the
+    request `delete(2, 5)` does not fit trivially (`from` and `to` have different parents); the Fitter closes at depth 1 (the
+    `b` behind `to` is accepted behind `a` in `x`), emits `ReplaceStep(2, 5, Slice.empty)`, and `apply` refuses it
+    (`check_join`: the start states of `x` and `y` share no node type — `ReplaceError("Cannot join y onto x")`,
+    `TransformError` from `Transform.delete`) -/
+theorem joinCompat_needed :
+    let nt (name : String) (leaf : Bool) (dfa : Array DfaState) : NodeType :=
+      { name := name, isText := false, isInline := false, isLeaf := leaf, isAtom := leaf,
+        inlineContent := false, isolating := false, defining := false, code := false,
+        dfa := dfa, markSet := none, attrs := [] }
+    let S : Schema := { nodes := #[nt "doc" false #[⟨false, [(1, 1), (2, 1)]⟩, ⟨true, [(1, 1), (2, 1)]⟩],
+                                   nt "x" false #[⟨false, [(3, 1)]⟩, ⟨true, [(4, 1)]⟩],
+                                   nt "y" false #[⟨false, [(4, 1)]⟩, ⟨true, [(4, 1)]⟩],
+                                   nt "a" true #[⟨true, []⟩],
+                                   nt "b" true #[⟨true, []⟩],
+                                   { (nt "text" true #[⟨true, []⟩]) with isText := true, isInline := true }],
+                        marks := #[], top := 0, textTy := 5 }
+    let doc := Node.elem 0 [] [] [.elem 1 [] [] [.leaf 3 [] []], .elem 2 [] [] [.leaf 4 [] [], .leaf 4 [] []]]
+    joinCompatB S = false ∧
+    detB S = true ∧ S.fillersOKB = true ∧ PM.FromDom.leafOkB S = true ∧ S.closableB = true ∧ textStableC S = true ∧
+    textAbsorbB S = true ∧ reopenOKB S = true ∧ inlineUniformB S = true ∧
+    S.checkNode doc = true ∧ fnorm doc.kids = true ∧ S.nodeAttrsOK doc = true ∧ highClosedKids doc.kids = true ∧
+    pairAligned doc 2 = true ∧ pairAligned doc 5 = true ∧
+    (match replaceStep S doc 2 5 Slice.empty with
+     | .ok (some (.replace 2 5 sl _)) => sl == Slice.empty
+     | _ => false) = true ∧
+    S.apply (.replace 2 5 Slice.empty false) doc = .error .failed := by
+  intro nt S doc
+  refine ⟨by decide +kernel, by decide +kernel, by decide +kernel, by decide +kernel, by decide +kernel,
+    by decide +kernel, by decide +kernel, by decide +kernel, by decide +kernel, by decide +kernel, by decide +kernel,
+    by decide +kernel, by decide +kernel, by decide +kernel, by decide +kernel, by decide +kernel, ?_⟩
+  simp [Schema.apply, Schema.fromReplace, Schema.replace, doc, replaceKids, inRange, depthAt, Slice.empty, Slice.wf,
+    spineL, spineR, outer, atLevel, twoWay, splitRight, Schema.compatibleContent, Dfa.compatible, S, nt, Schema.dfa,
+    Schema.nodeType, Dfa.edgesOf, Except.map]
 
 end PM.C11
